@@ -62,7 +62,10 @@ if os.environ.get("PYTHON_MYPY_VERIF") == "1" and os.environ.get("VERIF_CTL"):
             if not message.is_interface:
                 state["iface_gated"] = False
                 state["impl_gated"] = False
-            return orig_send(manager, server, message)
+            r = orig_send(manager, server, message)
+            # tell the controller that the frame is now in the socket (notification, no wait)
+            ctl().sendall((json.dumps({"w": idx, "gate": "sent", "info": None}) + "\n").encode())
+            return r
 
         w.process_stale_scc_interface = p_if
         w.process_stale_scc_implementation = p_impl
